@@ -110,6 +110,8 @@ def run(chk):
     for r in res[:2]:
         chk.sample({"cfg": r["cfg"], "negotiated": r["negotiated"], "scenario": r["scenario"], "fault": r["fault"], "delivered": len(r["tunw_s"]) + len(r["tunw_c"])})
     W.report_client_model(chk, res, "C02")
+    W.report_server_model(chk, res, "C02")
+    W.report_rseq(chk, "C02")
     if not chk.violations and not proof_ok:
         chk.violation("proof obligation no longer checks: " + chk.proof_detail,
                       ["# theorems of Props/C02.lean: " + ", ".join(vlib.prop_theorems("C02")), "# " + chk.proof_detail.replace("\n", "\n# ")], no_input=True)
